@@ -606,8 +606,10 @@ def check(machine, tier, seed, log=print):
             lines.append(f"VIOLATION property={machine.pid} replay={path}")
             log(f"  {res['violation']['detail'][:600]}")
 
-    extra = machine.evidence_extra(results) if hasattr(
-        machine, 'evidence_extra') else {}
+    extra = {}
+    if hasattr(machine, 'post_batch'):
+        extra, perrs = machine.post_batch(tier, seed, log)
+        errors += perrs
     extra['known_findings_matched'] = sorted(known_hit)
     extra['determinism'] = {'runs_executed_twice': plan.get('det_runs', 3)}
     epath = os.path.join(VERIF, 'evidence', f'{machine.pid}.json')
